@@ -296,6 +296,7 @@ theorem reach_indef_map (n : Nat) (xs : List DItem) (hlen : xs.length = 2 * n) (
       refine this.out_eq ?_
       match rest, hl' with
       | [], _ => simp [kvSep]
+      | [a], h => simp only [List.length_cons, List.length_nil] at h; omega
       | a :: b :: r, _ => simp [kvSep]
 
 end Minicbor
